@@ -393,7 +393,8 @@ func (p *Preprocessor) canonicalizeConditional(graph *cfg.CFG, thisBlock *cfg.Bl
 			// For explicit boolean NEQ checks, we replace the AST nodes for `ok != true` and `ok != false`
 			// (also, `true != ok` and `false != ok`) with `ok` and `!ok` form for the true and false cases, respectively.
 			if asthelper.IsLiteral(y, "false") {
-				replaceCond(x) // replaces `ok != false` with `ok`
+				replaceCond(x)                              // replaces `ok != false` with `ok`
+				p.canonicalizeConditional(graph, thisBlock) // recur to canonicalize the operand, e.g., `(v != nil) != false`
 			} else if asthelper.IsLiteral(y, "true") {
 				newCond := &ast.UnaryExpr{
 					OpPos: y.Pos(),
@@ -408,7 +409,8 @@ func (p *Preprocessor) canonicalizeConditional(graph *cfg.CFG, thisBlock *cfg.Bl
 			// For explicit boolean EQL checks, we replace the AST nodes for `ok == true` and `ok == false`
 			// (also, `true == ok` and `false == ok`) with `ok` and `!ok` form for the true and false cases, respectively.
 			if asthelper.IsLiteral(y, "true") {
-				replaceCond(x) // replaces `ok == true` with `ok`
+				replaceCond(x)                              // replaces `ok == true` with `ok`
+				p.canonicalizeConditional(graph, thisBlock) // recur to canonicalize the operand, e.g., `(v != nil) == true`
 			} else if asthelper.IsLiteral(y, "false") {
 				newCond := &ast.UnaryExpr{
 					OpPos: y.Pos(),
